@@ -190,6 +190,10 @@ impl<T: Value, N: Unsigned, U: UpdateMap<T>> List<T, N, U> {
             // otherwise it would be left with holes. All keys are visited rather than only those
             // up to `max_index`: a `MaxMap` filled through `get_mut_with`/`get_cow_with` instead
             // of `insert` under-reports its largest key, and such keys must be rejected too.
+            // `for_each_range` excludes its end, so the key `usize::MAX` needs its own check.
+            if updates.get(usize::MAX).is_some() {
+                return Err(Error::InvalidListUpdate);
+            }
             let mut next_index = self.len();
             updates.for_each_range(next_index, usize::MAX, |index, _| {
                 if index == next_index && index <= max_index {
